@@ -2,6 +2,8 @@ package main
 
 import (
 	"fmt"
+	"os"
+	"os/exec"
 	"reflect"
 	"regexp"
 	"sort"
@@ -13,7 +15,77 @@ import (
 
 var keyForm = regexp.MustCompile(`^[0-9]+\.[0-9]{3}$`)
 
+// coldConcurrentProduce is what a child process does as the very first thing: 16 goroutines
+// produce and fill instances of every listed type, nothing having been produced before
+func coldConcurrentProduce() {
+	keys := dpt.ListSupportedTypes()
+	sort.Strings(keys)
+	var wg sync.WaitGroup
+	bad := make(chan string, 64)
+	for g := 0; g < 16; g++ {
+		wg.Add(1)
+		go func(g int) {
+			defer wg.Done()
+			for round := 0; round < 3; round++ {
+				for i := range keys {
+					k := keys[(i*7+g*11)%len(keys)]
+					d, ok := dpt.Produce(k)
+					if !ok || d == nil {
+						continue
+					}
+					zero := reflect.New(reflect.TypeOf(d).Elem()).Interface().(dpt.Datapoint)
+					if render(d) != render(zero) {
+						select {
+						case bad <- k + " produced " + render(d):
+						default:
+						}
+					}
+					p := d.Pack()
+					if len(p) > 1 {
+						p[len(p)-1] ^= byte(g)
+					}
+					func() {
+						defer func() { recover() }()
+						d.Unpack(p)
+					}()
+				}
+			}
+		}(g)
+	}
+	wg.Wait()
+	select {
+	case b := <-bad:
+		fmt.Println("NOT-ZERO " + b)
+		os.Exit(4)
+	default:
+	}
+	fmt.Println("cold ok")
+}
+
+// c19Cold runs the cold-start concurrency probe in child processes (a lazily filled cache or table
+// is only exercised by the FIRST requests of a process)
+func (r *run) c19Cold(n int) {
+	exe, err := os.Executable()
+	if err != nil {
+		return
+	}
+	for i := 0; i < n; i++ {
+		cmd := exec.Command(exe, "-prop", "C19cold")
+		out, err := cmd.CombinedOutput()
+		r.classes["cold-start concurrent produce"]++
+		if err != nil {
+			s := string(out)
+			if len(s) > 600 {
+				s = s[:600]
+			}
+			r.violation("concurrent-produce-failed", "16 goroutines x Produce/Unpack over all names as the first thing a process does", strings.ReplaceAll(s, "\n", " | "))
+			return
+		}
+	}
+}
+
 func (r *run) c19(budget int, thorough bool) {
+	r.c19Cold(6)
 	types := allTypes()
 	keys := dpt.ListSupportedTypes()
 	sort.Strings(keys)
